@@ -156,20 +156,21 @@ Section Proto.
 Variable ip6 : str -> option str.
 Variable handler : str -> hres.
 Variable has_mw has_upload : bool.
+Variable up_call_fails : option str.
 Variable peer_ip : str.
 Variable peer_fp : option str.
 
 Notation route := (route handler).
 Notation handle_gemini := (handle_gemini ip6 handler has_mw peer_ip peer_fp).
-Notation start_upload := (start_upload has_upload).
-Notation process_titan_upload := (process_titan_upload has_mw has_upload peer_ip peer_fp).
-Notation handle_titan_url := (handle_titan_url ip6 has_mw has_upload peer_ip peer_fp).
-Notation data_received := (data_received ip6 handler has_mw has_upload peer_ip peer_fp).
-Notation feed := (feed ip6 handler has_mw has_upload peer_ip peer_fp).
-Notation task_done := (task_done handler has_upload).
-Notation step := (step ip6 handler has_mw has_upload peer_ip peer_fp).
-Notation run := (run ip6 handler has_mw has_upload peer_ip peer_fp).
-Notation final := (final ip6 handler has_mw has_upload peer_ip peer_fp).
+Notation start_upload := (start_upload has_upload up_call_fails).
+Notation process_titan_upload := (process_titan_upload has_mw has_upload up_call_fails peer_ip peer_fp).
+Notation handle_titan_url := (handle_titan_url ip6 has_mw has_upload up_call_fails peer_ip peer_fp).
+Notation data_received := (data_received ip6 handler has_mw has_upload up_call_fails peer_ip peer_fp).
+Notation feed := (feed ip6 handler has_mw has_upload up_call_fails peer_ip peer_fp).
+Notation task_done := (task_done handler has_upload up_call_fails).
+Notation step := (step ip6 handler has_mw has_upload up_call_fails peer_ip peer_fp).
+Notation run := (run ip6 handler has_mw has_upload up_call_fails peer_ip peer_fp).
+Notation final := (final ip6 handler has_mw has_upload up_call_fails peer_ip peer_fp).
 Notation Inv := (Inv has_upload).
 
 Ltac use_send s r :=
@@ -195,7 +196,9 @@ Qed.
 Lemma Eff_start_upload s : Eff s (fst (start_upload s)) (snd (start_upload s)).
 Proof.
   unfold ServerProto.start_upload. destruct (titan s); [|apply Eff_refl].
-  destruct has_upload; [|apply Eff_refl]. rewrite spawn_let; cbn [fst snd]. eff_spawn.
+  destruct has_upload; [|apply Eff_refl]. destruct up_call_fails as [msg|].
+  - rewrite upload_failed_eq. use_send s (err_resp 40 (lit "Upload error: " ++ msg)). apply Eff_cons; auto.
+  - rewrite spawn_let; cbn [fst snd]. eff_spawn.
 Qed.
 
 Lemma Eff_ptu s : Eff s (fst (process_titan_upload s)) (snd (process_titan_upload s)).
@@ -358,7 +361,10 @@ Lemma Cap_start_upload s : Cap s (fst (start_upload s)) (snd (start_upload s)) 1
 Proof.
   unfold ServerProto.start_upload. destruct (titan s); [|eapply Cap_weaken; [apply Cap_refl|slia]].
   destruct has_upload; [|eapply Cap_weaken; [apply Cap_refl|slia]].
-  rewrite spawn_let; cbn [fst snd]. apply Cap_spawn0. reflexivity.
+  destruct up_call_fails as [msg|].
+  - rewrite upload_failed_eq. pose proof (Cap_send s (err_resp 40 (lit "Upload error: " ++ msg)) 0) as H.
+    destruct (send_response s _). apply Cap_cons1, H.
+  - rewrite spawn_let; cbn [fst snd]. apply Cap_spawn0. reflexivity.
 Qed.
 
 Lemma Cap_ptu s :
